@@ -15,7 +15,7 @@ from checks.accfg_common import clone_module, execute, first_diff, fmt_event
 
 PID = "C06"
 RULE = (
-    "all G_acc programs (rich value atoms: induction variable, induction+argument chain, outer induction variable; run-time and constant loop "
+    "all G_acc programs (rich value atoms: induction variable, induction+argument chain, i - lower bound, i * a constant defined inside the loop body, outer induction variable; run-time and constant loop "
     "bounds incl. a constant zero-trip loop; calls; ifs) with <= N nodes -> real trace+dedup -> real accfg-config-overlap; each x all loop-bound / "
     "branch vectors. distinct = distinct (program, traces); non-trivial = the overlap pass changed the IR"
 )
